@@ -117,6 +117,8 @@ impl<'a> Stream for ItemStream<'a> {
         self.idx += 1;
         self.remaining = self.items.get(self.idx).map(|x| x.0).unwrap_or(0);
         let items: &'a [(usize, Plan)] = self.items;
+        // producing an item is resolver code too: it is part of the observable call order
+        self.log.lock().unwrap().push(format!("{}/{}#", self.path, i));
         Poll::Ready(Some(a_value(&items[i].1, format!("{}/{}", self.path, i), self.log.clone())))
     }
 }
@@ -150,7 +152,10 @@ fn s_value<'a>(plan: &'a Plan, path: String, log: Log) -> Result<ResolvedValue<'
         Plan::Error => Err(FieldError { message: "planned error".into() }),
         Plan::Obj(fs) => Ok(ResolvedValue::object(SObj { fields: fs, path, log, ty: "T" })),
         Plan::List(items) => {
-            let it = items.iter().enumerate().map(move |(i, (_, p))| s_value(p, format!("{path}/{i}"), log.clone()));
+            let it = items.iter().enumerate().map(move |(i, (_, p))| {
+                log.lock().unwrap().push(format!("{path}/{i}#"));
+                s_value(p, format!("{path}/{i}"), log.clone())
+            });
             Ok(ResolvedValue::List(Box::new(it)))
         }
     }
